@@ -716,6 +716,7 @@ class ParallelProcess(Process):
         })
         self.profile = profile
         self._stats_objs = stats_objs
+        self._wrapped_is_step = process.is_step()
         assert not self.profile or self._stats_objs is not None
         # Linux's default ``fork`` start method causes a lot of random
         # issues, including python/cpython#110770 (prompted this change)
@@ -800,11 +801,18 @@ class ParallelProcess(Process):
 
     @property
     def schema(self) -> Optional[Schema]:
+        # Only the parent sets the schema, so serve it from the copy
+        # kept on this side: the views are rebuilt (and the schema read)
+        # while the child may still be computing an update, when no
+        # command can be sent.
+        if self._schema is not None:
+            return self._schema
         return self.run_command('schema')
 
     @schema.setter
     def schema(self, value: Optional[Schema]) -> None:
         self.run_command('set_schema', (value,))
+        self._schema = value
 
     def merge_overrides(self, override: Schema) -> None:
         self.run_command('merge_overrides', (override,))
@@ -813,7 +821,10 @@ class ParallelProcess(Process):
         return self.run_command('calculate_timestep', (states,))
 
     def is_step(self) -> bool:
-        return self.run_command('is_step')
+        # Fixed for the lifetime of the wrapped process and asked by the
+        # engine whenever the process is (re-)registered, possibly with
+        # an update in flight: answered without a command.
+        return self._wrapped_is_step
 
     def get_private_state(self) -> State:
         return self.run_command('get_private_state')
